@@ -188,5 +188,61 @@ PROPS["C20"] = _hist(
     Q(120), T(1600),
 )
 
+PROPS["C12"] = _hist(
+    "C12", ["C12", "C04"],
+    dict(classes=("real", "real", "deep"), pool=(10, 20, 30), backends=("file", "file", "memory"), rule_prob=0.7,
+         weights={"add_page": 6, "add_links": 2, "batch": 1, "create": 6, "delete": 5, "addp": 1, "rmp": 2, "rule": 2, "rmrule": 1,
+                  "reopen": 4, "clear": 1}),
+    "creation/deletion churn (explicit, automatic, rule-driven) with close/reopen at random positions and clear; the id monitor at "
+    "the client boundary checks every id of every write report against the running maximum of all ids issued since creation or "
+    "the last clear (kept by the harness across deletions and reopen), that one explicit request yields one id, and that ids "
+    "rise in creation order inside one report. Non-trivial: >= 3 ids issued and >= 1 reopen or deletion in the history.",
+    lambda f: f["auto_groups"] >= 3 and (f["reopens"] >= 1 or f["deletes"] >= 1),
+    ["ids_checked", "reopens"],
+    ["Traph.__generated_web_entity_id", "LRUTrieHeader.write", "LRUTrieHeader.increment_last_webentity_id", "Traph.__add_prefixes"],
+    Q(200), T(3000),
+)
+
+def _paging(prop, profile, rule, nontrivial, deciding, anchors, quick, thorough):
+    return {"engine": "paging", "profile": profile, "rule": rule, "nontrivial": nontrivial, "deciding_counters": deciding,
+            "anchors": anchors, "quick": quick, "thorough": thorough, "level": "exploration", "assumptions": [
+                "main workloads keep ternary path depth small (pools <= 70 LRUs); deeper chains only in the isolated deep-chain probe"]}
+
+
+PROPS["C09"] = _paging(
+    "C09",
+    dict(classes=("real", "real", "deep", "bin"), pool=(12, 24, 40), rule_prob=0.5, insert_prob=0.5,
+         weights={"add_page": 9, "add_pages": 2, "add_links": 2, "batch": 1, "create": 3, "addp": 3, "delete": 1, "rmp": 1, "mvp": 1, "rule": 1}),
+    "random states (webentities with 1-4 prefixes incl. prefixes without pages, nested foreign prefixes, prefixes that are pages) "
+    "paged through with k in {1,2,3,7,n-1,n,n+1} (every k for the exhaustive sibling shapes), normal and crawled-only, feeding "
+    "every token back: each answer's counts/size/token/done are checked and the concatenation compared with [per prefix in the "
+    "given order: sorted(pages resolving to that prefix)]; in half of the runs 0-3 pages are inserted between successive calls "
+    "(before/at/after the cursor, under other prefixes, re-submissions, with automatic creation) and the trace is checked for "
+    "repeats, skipped throughout-pages and alien pages; token codec round-trips exhaustively for paths up to the stated length; "
+    "one isolated deep-chain probe. Non-trivial: >= 2 webentities and >= 8 pages; distinct = distinct store bytes.",
+    lambda f: f["we"] >= 1 and f["pages"] >= 4,
+    ["C09_paginations", "C09_multi_call_paginations", "C09_resumes", "C09_codec_roundtrips"],
+    ["LRUTrie.webentity_inorder_iter", "Traph.paginate_webentity_pages", "build_pagination_token", "parse_pagination_token"],
+    dict(cases=220, nops=(20, 40), time_cap=120, watchdog=400, min_cases=40, w_random=3, w_shape=1, codec_len=6, codec_random=300, deep_n=1200),
+    dict(cases=3000, nops=(25, 50, 90), time_cap=800, watchdog=1500, min_cases=400, w_random=3, w_shape=1, exhaustive_shapes=6,
+         codec_len=8, codec_random=5000, deep_n=1200),
+)
+
+PROPS["C10"] = _paging(
+    "C10",
+    dict(classes=("real", "real", "deep"), pool=(8, 14, 24), rule_prob=0.4,
+         weights={"add_page": 6, "add_pages": 1, "add_links": 7, "batch": 4, "create": 3, "addp": 3, "delete": 1, "rmp": 1, "mvp": 1, "rule": 1}),
+    "random states with link-less pages and whole prefixes without link-bearing pages between link-bearing ones; every webentity "
+    "(prefixes shuffled) x 3 switch settings x source counts {1,2,3,n,n+1} (every count for exhaustive shapes) is paged through "
+    "feeding every token back; every issued token must be resumable, each non-final answer must cover exactly the requested "
+    "number of sources, counts must match contents and the concatenation must equal get_webentity_pagelinks as a multiset of "
+    "(source,target,weight). One isolated deep-chain probe. Non-trivial: >= 2 webentities, >= 4 link pairs.",
+    lambda f: f["we"] >= 1 and f["pairs"] >= 2,
+    ["C10_paginations", "C10_multi_call_paginations", "C10_resumes"],
+    ["LRUTrie.webentity_inorder_iter", "Traph.paginate_webentity_pagelinks", "Traph.get_webentity_pagelinks_iter"],
+    dict(cases=220, nops=(20, 40), time_cap=120, watchdog=400, min_cases=40, w_random=3, w_shape=1, deep_n=1200),
+    dict(cases=3000, nops=(25, 50, 90), time_cap=800, watchdog=1500, min_cases=400, w_random=3, w_shape=1, exhaustive_shapes=6, deep_n=1200),
+)
+
 # properties deliberately not claimed (none so far): id -> reason
 NOT_APPLICABLE = {}
